@@ -481,6 +481,10 @@ class PPA:
             return Iv(0, SIZE)      # A1: the encoded size of an in-memory value
         if name == "unwrap_u8" and "Choice" in path:
             return Iv(0, 1)
+        if name in ("checked_shl", "wrapping_shl", "overflowing_shl") and len(args) == 2:
+            a = self.iv(env, args[0], depth + 1)
+            if a.lo >= 0:
+                return Iv(a.lo if name == "checked_shl" else 0, max(a.hi, 1) << 127)
         if name in ("checked_sub", "checked_add", "checked_mul"):
             return TOP
         return Iv(0, (1 << 64) - 1) if True else TOP
@@ -1412,7 +1416,7 @@ def always_obligation(o):
     if o.kind in ("div_zero", "rem_zero"):
         return True
     if o.kind.startswith("overflow:"):
-        if o.kind == "overflow:Sub":
+        if o.kind in ("overflow:Sub", "overflow:Shl", "overflow:Shr"):
             return True
         w = o.width
         if w is not None and w.get("k") == "int" and w.get("w") in NARROW:
